@@ -52,6 +52,13 @@ def main(argv):
         conds = {c.name: c for c in mod.conditions(tier)}
         cond = conds[condname]
         tuning.trace_repo_functions()
+        if cond.custom:
+            t1 = time.time()
+            r = cond.fn()
+            res.update({"paths": 0, "bounds": cond.bounds, "twin": cond.twin, "group": cond.group, "functions": sorted(tuning.TRACED), "solver": dict(tuning.STATS)})
+            res.update(r)
+            res["analysis_s"] = round(time.time() - t1, 2)
+            raise SystemExit
         if cond.concrete:
             import vlib.world as _w
 
